@@ -206,8 +206,8 @@ def c02_nested_d1(p: str, q: str, shape: int) -> bool:
 
 def c02_nested_d2(p: str, q: str, shape: int) -> bool:
     """
-    Depth 2 (`std::opt<std::vec<q, ...p...>>`).
-    pre: _pre(p, q, LP, LQ) and 0 <= shape < 4
+    Depth 2 (`std::opt<std::vec<std::lst<q>, ...p...>>`).
+    pre: _pre(p, q, LP3, LQ3) and 0 <= shape < 4
     pre: not (kf_open('C02-substring') and p in q)
     post: _
     """
